@@ -122,10 +122,14 @@ LOOKALIKE = [(0, False), (1, True), (False, 0), (True, 1), (1, 1.0), (1.0, 1), (
              (None, 0), (None, ""), (None, []), (True, "true"), (0, "0"), (0, None)]
 
 
-def mutate(draw, v):  # noqa: C901, PLR0911, PLR0912
-    """One mutation of a plain-data vspec (``draw`` comes from an enclosing composite strategy)."""
+def mutate(draw, v, root_structure=False):  # noqa: C901, PLR0911, PLR0912
+    """One mutation of a plain-data vspec (``draw`` comes from an enclosing composite strategy).
+    ``root_structure``: mutate the shape of the root container itself (kind, length, keys)."""
     pos = list(positions(v))
-    path = draw(st.sampled_from(pos))
+    containers = [p for p in pos if isinstance(get_at(v, p), (list, dict))]
+    # containers are few among many leaves, and they are where loaders check the type of their input
+    path = () if root_structure else \
+        draw(st.sampled_from(containers if containers and draw(st.integers(0, 2)) == 0 else pos))
     node = get_at(v, path)
     is_key = len(path) >= 3 and path[-1] == 0 and path[-3] == "v" and isinstance(get_at(v, path[:-3]), dict) \
         and get_at(v, path[:-3]).get("$") in ("d", "dd", "custmap", "itemsonly", "dictsub")
@@ -140,6 +144,8 @@ def mutate(draw, v):  # noqa: C901, PLR0911, PLR0912
         ops += ["change_len", "change_len", "container_kind", "container_kind"]
     if isinstance(node, dict) and node.get("$") == "d" and not is_key:
         ops += ["del_key", "del_key", "add_key", "rename_key", "container_kind", "map_kind"]
+    if root_structure and len(ops) > 3:
+        ops = ops[3:]
     op = draw(st.sampled_from(ops))
     if op == "replace_leaf":
         new = draw(st.sampled_from(_LEAVES))
@@ -178,13 +184,17 @@ def mutate(draw, v):  # noqa: C901, PLR0911, PLR0912
                 new = {"$": kind, "v": node["v"]}
         else:
             items = list(node if isinstance(node, list) else node["v"])
-            kind = draw(st.sampled_from(["list", "t", "gen", "nolen", "listsub", "deque", "set", "intkeys", "str", "strkeys"]))
+            kind = draw(st.sampled_from(["list", "t", "gen", "nolen", "listsub", "deque", "set", "intkeys", "intkeys_gap",
+                                         "str", "strkeys"]))
             if kind == "list":
                 new = items
             elif kind == "set":
                 new = {"$": "set", "v": [x for i, x in enumerate(items) if _hashable_spec(x) and x not in items[:i]]}
             elif kind == "intkeys":
                 new = {"$": "d", "v": [[i, x] for i, x in enumerate(items)]}
+            elif kind == "intkeys_gap":  # passes a lookup of item 0 and misses a later one
+                gap = draw(st.integers(1, len(items) - 1)) if len(items) > 1 else 0
+                new = {"$": "d", "v": [[i, x] for i, x in enumerate(items) if i != gap]}
             elif kind == "strkeys":
                 new = {"$": "d", "v": [[str(i), x] for i, x in enumerate(items)]}
             elif kind == "str":
@@ -238,7 +248,7 @@ def _dedup_keys(v):
 
 
 @st.composite
-def st_near_valid(draw, tsp, max_mut: int = 3, layouts=None):
+def st_near_valid(draw, tsp, max_mut: int = 3, layouts=None, root_structure=False):
     """(datum vspec, list of applied ops): the reference dump of a canonical value, mutated at k >= 0 positions.
     ``layouts``: optional model layouts for the reference dump (see tspec.use_layouts)."""
     hint, e = tspec.build_type(tsp)
@@ -246,8 +256,11 @@ def st_near_valid(draw, tsp, max_mut: int = 3, layouts=None):
     with tspec.use_layouts(layouts):
         dumped = tspec.ref_dump(tsp, codec.build(val, e), e)
     v = encode_any(dumped)
-    k = draw(st.integers(0, max_mut))
+    k = draw(st.sampled_from([0, *range(1, max_mut + 1), *range(1, max_mut + 1), *range(1, max_mut + 1)]))
     ops = []
+    if root_structure:
+        v, op = mutate(draw, v, root_structure=True)
+        ops.append("root:" + op)
     for _ in range(k):
         v, op = mutate(draw, v)
         ops.append(op)
